@@ -1,9 +1,11 @@
 import re
+from checklib.c16 import pregen as _pregen_templates
 
 CONFIG = dict(
     bin="c06",
     drv="drv_c06",
-    lean_modules=["MahfModel.Props.C06"],
+    lean_modules=["MahfModel.Props.C06", "MahfModel.Props.C06Templates"],
+    pregen=_pregen_templates,
     namespaces=["MahfModel.Props.C06"],
     shrink_lists=["steps"],
     level="proof",
@@ -36,3 +38,5 @@ CONFIG = dict(
                 "statement is refuted (known finding, recorded). Template wiring is audited by running the templates, not by a "
                 "regenerated static analysis."),
 )
+
+CONFIG["level_text"] = CONFIG["level_text"] + " " + "Template level: a `counterExact` analysis over the component trees (no scope shadows the evaluation counter) is proved sound for every execution of an abstract interpreter, and the kernel re-evaluates it by `decide` on the trees of all 21 templates x 4 parameter points regenerated from the code's own Serialize output on every run (84 obligations; ILS = false, the recorded finding, with a concrete violating model execution)."
